@@ -301,3 +301,38 @@ Check SrcTie2Events.EV_read_internal_shape.
 Theorem C10_tie_EV_read_internal_shape : ltac:(let t := type of SrcTie2Events.EV_read_internal_shape in exact t).
 Proof. exact SrcTie2Events.EV_read_internal_shape. Qed.
 Print Assumptions C10_tie_EV_read_internal_shape.
+
+(* ---------- Tie A level 1, work package readerT (tools/src2v3_reader.py -> gen/Src3d.v): the normal reader re-translated from the source, statement by statement, IS the model's (theories/SrcTie3Reader*.v) ---------- *)
+From MLA Require SrcTie3Reader SrcTie3ReaderRT.
+Check SrcTie3Reader.bfr_read_sim.
+Theorem C10_tie_bfr_read_sim : ltac:(let t := type of SrcTie3Reader.bfr_read_sim in exact t).
+Proof. exact SrcTie3Reader.bfr_read_sim. Qed.
+Print Assumptions C10_tie_bfr_read_sim.
+Check SrcTie3Reader.move_to_next_block_sim.
+Theorem C10_tie_move_to_next_block_sim : ltac:(let t := type of SrcTie3Reader.move_to_next_block_sim in exact t).
+Proof. exact SrcTie3Reader.move_to_next_block_sim. Qed.
+Print Assumptions C10_tie_move_to_next_block_sim.
+Check SrcTie3Reader.get_file_sim.
+Theorem C10_tie_get_file_sim : ltac:(let t := type of SrcTie3Reader.get_file_sim in exact t).
+Proof. exact SrcTie3Reader.get_file_sim. Qed.
+Print Assumptions C10_tie_get_file_sim.
+Check SrcTie3Reader.get_hash_sim.
+Theorem C10_tie_get_hash_sim : ltac:(let t := type of SrcTie3Reader.get_hash_sim in exact t).
+Proof. exact SrcTie3Reader.get_hash_sim. Qed.
+Print Assumptions C10_tie_get_hash_sim.
+Check SrcTie3Reader.list_files_sim.
+Theorem C10_tie_list_files_sim : ltac:(let t := type of SrcTie3Reader.list_files_sim in exact t).
+Proof. exact SrcTie3Reader.list_files_sim. Qed.
+Print Assumptions C10_tie_list_files_sim.
+Check SrcTie3ReaderRT.read_all_src.
+Theorem C10_tie_read_all_src : ltac:(let t := type of SrcTie3ReaderRT.read_all_src in exact t).
+Proof. exact SrcTie3ReaderRT.read_all_src. Qed.
+Print Assumptions C10_tie_read_all_src.
+Check SrcTie3ReaderRT.get_file_read_all_src.
+Theorem C10_tie_get_file_read_all_src : ltac:(let t := type of SrcTie3ReaderRT.get_file_read_all_src in exact t).
+Proof. exact SrcTie3ReaderRT.get_file_read_all_src. Qed.
+Print Assumptions C10_tie_get_file_read_all_src.
+Check SrcTie3Reader.translated_reader_nonvacuous.
+Theorem C10_tie_translated_reader_nonvacuous : ltac:(let t := type of SrcTie3Reader.translated_reader_nonvacuous in exact t).
+Proof. exact SrcTie3Reader.translated_reader_nonvacuous. Qed.
+Print Assumptions C10_tie_translated_reader_nonvacuous.
